@@ -39,6 +39,12 @@ Definition spec_ok (c : case) : bool :=
 Definition model_ok (c : case) : bool :=
   match c with
   | CDelim tys m k file o => obs_matches o (model_delim tys m (eff_k k file) file)
-  | COneLine f m k file o => obs_matches o (model_oneline f m (eff_k k file) file)
+  | COneLine f m k file o =>
+      (* read() (k = 0) hands the whole text to from_raw_buffer once: a text without one complete record raises
+         IncompleteEntryException there, while read_chunks ends the stream at end of file *)
+      match k =? 0, cut f (text_of file) with
+      | true, CutIncomplete => match o with OOther => true | _ => false end
+      | _, _ => obs_matches o (model_oneline f m (eff_k k file) file)
+      end
   | CSpecOnly _ _ => true
   end.
